@@ -50,6 +50,24 @@ for t1 in TN:
                 progs.append(p + [wr("RddV", ("shift", ">>", ("tern", cc, A, B), L("3")))])
                 progs.append(p + [wr("RdV", ("cmp", "<", ("tern", cc, A, B), L("0")))])
                 progs.append(p + [wr("RddV", ("bin", "*", ("tern", cc, A, B), L("3")))])
+# assignment targets that are explicit / alias registers (assigned, so the code would READ them through the .new value)
+def xreg(n, t): return ("reg", n, t)
+P0 = xreg("P0", (True, 8)); P1 = xreg("P1", (True, 8)); SA1 = xreg("HEX_REG_ALIAS_SA1", (False, 32)); LC1 = xreg("HEX_REG_ALIAS_LC1", (False, 32))
+R31 = xreg("R31", (True, 32))
+for t1 in TN:
+    a = var("a", t1)
+    p1 = [decl(t1, "a", ("cast", t1, T[t1], reg("RssV")))]
+    for X in (P0, SA1, R31):
+        progs.append(p1 + [("assign", X, "=", a)])
+        progs.append(p1 + [("assign", X, "=", ("tern", ("cmp", "==", a, reg("RtV")), L("0xff"), L("0x00")))])
+        progs.append(p1 + [("assign", X, "=", a), wr("RdV", X)])                 # read after the assignment
+        progs.append(p1 + [wr("RdV", X), ("assign", X, "=", a)])                 # read before the assignment
+        progs.append(p1 + [("assign", X, "=", a), ("assign", X, "=", ("bin", "+", X, L("1")))])   # target read on the right
+        for op in ("|=", "+=", "&="):
+            progs.append(p1 + [("assign", X, op, a)])                            # compound: the target IS read
+        progs.append(p1 + [("if", ("not", ("bin", "&", reg("PvV"), L("1"))), [("assign", X, "=", a)], [("assign", X, "=", L("0"))])])
+    progs.append(p1 + [("assign", P0, "=", a), ("assign", P1, "=", ("un", "~", a))])
+    progs.append(p1 + [("assign", SA1, "=", ("bin", "+", reg("HEX_REG_ALIAS_PC") if False else a, L("4"))), ("assign", LC1, "=", a)])
 print("programs", len(progs))
 items = [{"ast": a_, "src": gen.prog_src(a_)} for a_ in progs]
 parsed = rc.parse_programs([it["src"] for it in items])
